@@ -60,7 +60,9 @@ def SS.element (s : SS) (idx : Nat) (pushChild : B → R B) : R SS :=
       let c' ← pushChild c
       pure { s with fields := s.fields.set idx c', seen := s.seen.set idx true, next := idx + 1 }
 
-/-- `UnionBuilder::serialize_variant`: bookkeeping for one row of variant `idx`; returns the variant's builder -/
+/-- `UnionBuilder::serialize_variant`: bookkeeping for one row of variant `idx`; returns the variant's builder.
+`current_offset: Vec<i32>`: the next offset `co + 1` is a CHECKED addition (repo fix fe68100: beyond `i32::MAX` rows of
+one variant the push is an error, raised before `offsets` / `types` are touched). -/
 def serializeVariant (fs : BL) (types offs cur : List Int) (idx : Nat) : R (B × List Int × List Int × List Int) :=
   match fs.get? idx with
   | none => fail s!"Could not find variant {idx} in Union"
@@ -68,7 +70,22 @@ def serializeVariant (fs : BL) (types offs cur : List Int) (idx : Nat) : R (B ×
     match cur[idx]? with
     | none => panic "index out of bounds: current_offset[variant_index]"
     | some co =>
+      if co + 1 > 2147483647 then
+        fail s!"Invalid union offsets: the offset type cannot represent the number of elements of variant {idx}"
+      else if idx > 127 then fail "out of range integral type conversion attempted"
+      else .ok (c, types ++ [(idx : Int)], offs ++ [co], cur.set idx (co + 1))
+
+/-- the pinned `serialize_variant` (before fe68100): `self.current_offset[variant_index] += 1` on an `i32`, unchecked —
+with overflow checks on it unwinds on the 2^31-th row of one variant (after `offsets` and `types` were pushed) -/
+def serializeVariantPinned (fs : BL) (types offs cur : List Int) (idx : Nat) : R (B × List Int × List Int × List Int) :=
+  match fs.get? idx with
+  | none => fail s!"Could not find variant {idx} in Union"
+  | some (c, _) =>
+    match cur[idx]? with
+    | none => panic "index out of bounds: current_offset[variant_index]"
+    | some co =>
       if idx > 127 then fail "out of range integral type conversion attempted"
+      else if co + 1 > 2147483647 then panic "attempt to add with overflow"
       else .ok (c, types ++ [(idx : Int)], offs ++ [co], cur.set idx (co + 1))
 
 inductive SeqKind where
